@@ -292,6 +292,8 @@ def c05(run):
     if usable and h:
         sched_runs(run, h, ALL_KINDS, "racers", ("FN", "NONLIN", "PREFILL"), quick=(50, 6))
         sched_runs(run, h, ALL_KINDS, "", ("FN",), quick=(40, 6), lin=False)
+        # get-or-create and compute calls while the table shrinks or is cleared (no lost update, one winner)
+        sched_runs(run, h, ("map", "mapof"), "shrink", ("FN", "NONLIN", "PREFILL"), quick=(80, 8))
         trace_runs(run, h, ("map", "mapof"), quick=(40, 4))
     if usable and lh:
         seq_map_runs(run, lh, None, quick=(10, 300))
